@@ -65,7 +65,7 @@ C17_Iff ==
   [][last'.a = "Present" =>
        out' = {[k |-> "verdict", ok |-> (Genuine(last'.mut) /\ last'.left >= 0)]}]_vars
 
-MCDurs == {-600, 0, 10, 20, 30, -4, 8, 25}
+MCDurs == {-600, 0, 10, 20, 30, -4, 8, 25, -2000000000}   \* (the last one stands for the most negative duration there is: the harness mints with time.Duration(math.MinInt64), 292 years back)
 MCMuts == {"none", "tsPlus1", "tsMinus1", "nonNumeric", "emptyUser", "leadingPlus", "leadingSpace", "extraColon",
            "pwOtherSecret", "pwTrimmedSecret", "pwOtherName", "pwFlip", "pwEmpty", "userSwap",
            "hexTs", "underscoreTs", "octalTs", "expTs", "restFormKeyed"}
